@@ -6,7 +6,7 @@ From C02 Require Import Model.
 Extraction Language OCaml.
 Cd "ocaml".
 Extraction "model.ml"
-  nat mpz_tdiv_q mpz_tdiv_r mpz_tdiv_qr mpz_fdiv_q mpz_fdiv_r mpz_cdiv_q mpz_cdiv_r mpz_mod
+  nat mpz_tdiv_q mpz_tdiv_r mpz_tdiv_qr mpz_fdiv_q mpz_fdiv_r mpz_cdiv_q mpz_cdiv_r mpz_fdiv_qr mpz_cdiv_qr mpz_mod
   mpz_tdiv_q_ui mpz_tdiv_r_ui mpz_tdiv_ui mpz_cdiv_r_ui mpz_cdiv_ui mpz_fdiv_r_ui mpz_fdiv_ui mpz_mod_ui
   mpz_divexact mpz_divexact_ui
   divin_I divin_l divin_ul div_I div_l div_i div_ul
